@@ -1383,7 +1383,7 @@ func (interp *Interpreter) cfg(root *node, sc *scope, importPath, pkgName string
 				case n.anc.kind == returnStmt:
 					// Store result directly to frame output location, to avoid a frame copy.
 					n.findex = childPos(n)
-				case bname == "cap" && isInConstOrTypeDecl(n):
+				case bname == "cap" && (isInConstOrTypeDecl(n) || isConstLenArg(n.child[1])):
 					t := n.child[1].typ.TypeOf()
 					for t.Kind() == reflect.Ptr {
 						t = t.Elem()
@@ -1396,7 +1396,8 @@ func (interp *Interpreter) cfg(root *node, sc *scope, importPath, pkgName string
 					}
 					n.findex = notInFrame
 					n.gen = nop
-				case bname == "len" && (isInConstOrTypeDecl(n) || isConstString(n.child[1])):
+					n.start = n // The argument of a constant cap is not evaluated.
+				case bname == "len" && (isInConstOrTypeDecl(n) || isConstString(n.child[1]) || isConstLenArg(n.child[1])):
 					t := n.child[1].typ.TypeOf()
 					for t.Kind() == reflect.Ptr {
 						t = t.Elem()
@@ -1409,6 +1410,7 @@ func (interp *Interpreter) cfg(root *node, sc *scope, importPath, pkgName string
 					}
 					n.findex = notInFrame
 					n.gen = nop
+					n.start = n // The argument of a constant len is not evaluated.
 				default:
 					n.findex = sc.add(n.typ)
 				}
@@ -3496,6 +3498,32 @@ func isBoolAction(n *node) bool {
 		return true
 	}
 	return false
+}
+
+// isConstLenArg returns true if len(n) and cap(n) are constants: n is of array
+// or pointer to array type and contains no channel receive or function call.
+func isConstLenArg(n *node) bool {
+	if n.typ == nil {
+		return false
+	}
+	t := n.typ.TypeOf()
+	if t.Kind() == reflect.Ptr {
+		t = t.Elem()
+	}
+	if t.Kind() != reflect.Array {
+		return false
+	}
+	constant := true
+	n.Walk(func(c *node) bool {
+		switch {
+		case c.kind == callExpr, c.kind == unaryExpr && c.action == aRecv:
+			constant = false
+		case c.kind == funcLit:
+			return false
+		}
+		return constant
+	}, nil)
+	return constant
 }
 
 // isConstNumber returns true if node is an untyped numeric constant, possibly folded.
